@@ -1,5 +1,9 @@
 import Props.Defs
 import Proofs.Pairing
+import Proofs.Mirror_Conflict
+import Proofs.Mirror_Labels
+import Proofs.Mirror_Dedup
+import Proofs.Mirror_Align
 namespace Coma.Proofs
 open Coma Coma.Spec
 
@@ -11,12 +15,12 @@ def Trimmed (m : OMap) : Prop :=
     in the same order, with label k renumbered to n+1−k -/
 theorem labels_mirror (m : OMap) (rev : Bool) (hs : m.shift = 0) :
     m.mirror.labels (!rev) =
-      (m.labels rev).map (fun l => ⟨(m.positions.length : Int) + 1 - l.site, l.pos⟩) := by
-  sorry
+      (m.labels rev).map (fun l => ⟨(m.positions.length : Int) + 1 - l.site, l.pos⟩) :=
+  Mirror.labels_mirror' m rev hs
 
 /-- the mirror image of a trimmed molecule is trimmed, and mirroring twice gives it back -/
-theorem mirror_trimmed (m : OMap) (h : Trimmed m) : Trimmed m.mirror ∧ m.mirror.mirror = m := by
-  sorry
+theorem mirror_trimmed (m : OMap) (h : Trimmed m) : Trimmed m.mirror ∧ m.mirror.mirror = m :=
+  ⟨Mirror.mirror_trimmed' m h, Mirror.mirror_mirror m⟩
 
 /-- pairing commutes with an injective renumbering of the query labels when no reference label
     has two equidistant query partners (and unconditionally with a change of `source`) -/
@@ -24,27 +28,46 @@ theorem dedup_relabel (σ τ : Int → Int) (hσ : ∀ a b, σ a = σ b → a = 
     (hq : Ascending (qs.map (·.pos))) (hnt : NoTies md start refs qs)
     (hrs : (refs.map (·.site)).Nodup) (hqs : (qs.map (·.site)).Nodup) :
     dedup ((candidates md start it refs qs).map (relabelPr σ τ)) =
-      (dedup (candidates md start it refs qs)).map (relabelPr σ τ) := by
-  sorry
+      (dedup (candidates md start it refs qs)).map (relabelPr σ τ) :=
+  have _ := hqs
+  Mirror.dedup_relabel' σ τ hσ md start it refs qs hq hnt hrs
 
 /-- the position list of a seed peak for the mirrored query on the other strand is the position
     list of the query, with query labels renumbered -/
 theorem engineAlign_mirror (md : Int) (ref qry : OMap) (start stop : Int) (rev : Bool) (it : Int)
     (ht : Trimmed qry) (hnt : NoTies md start (refWindow md ref start stop) (qry.labels rev)) :
     engineAlign md ref qry.mirror start stop (!rev) it =
-      (engineAlign md ref qry start stop rev it).map (relabelAPos (fun k => (qry.positions.length : Int) + 1 - k) id) := by
-  sorry
+      (engineAlign md ref qry start stop rev it).map (relabelAPos (fun k => (qry.positions.length : Int) + 1 - k) id) :=
+  Mirror.engineAlign_mirror' md ref qry start stop rev it ht.1 ht.2.2.2 hnt
 
-/-- everything after pairing — scoring, segment cutting, chaining (the join score is strand-blind),
-    conflict resolution — commutes with an injective renumbering of query labels -/
-theorem resolveConflicts_relabel (σ τ : Int → Int) (hσ : ∀ a b, σ a = σ b → a = b) (P : Params) (C : ChainCfg) (segs : List Seg) :
+/- The unconditional statement `resolveConflicts P C (segs.map (relabelSeg σ τ)) = …` for every
+   injective σ is FALSE (corner case: the null pair ⟨0,0⟩ is compared by label equality, so a
+   renumbering that moves label number 0 at coordinate 0 is observable): kernel-checked refutation
+   `Mirror.not_resolveConflicts_relabel` at the end of this file.  The provable variants are
+   `resolveConflicts_relabel_of` (σ fixes "is number 0" on labels at coordinate 0) and
+   `resolveConflicts_relabel_id` (σ = id). -/
+
+/-- the provable form of `resolveConflicts_relabel`: `endOverlapsWithStartOf` compares the end pair
+    of the left segment with `nullPr` (query label `⟨0,0⟩`) when the right segment is empty, so a
+    query label at position 0 must be numbered 0 before the renumbering iff it is after.
+    Counterexample without `hz` (σ k = k+1, P = {sp:=10,dp:=1,su:=-6,md:=3,minScore:=1,bst:=0}):
+    `[⟨0,[.pair ⟨⟨1,-10⟩,⟨7,-10⟩,0,0⟩, .uref ⟨2,1⟩, .uref ⟨3,2⟩, .pair ⟨⟨4,5⟩,⟨0,0⟩,0,0⟩]⟩, ⟨0,[]⟩]`. -/
+theorem resolveConflicts_relabel_of (σ τ : Int → Int) (hσ : ∀ a b, σ a = σ b → a = b) (P : Params) (C : ChainCfg)
+    (segs : List Seg)
+    (hz : ∀ s ∈ segs, ∀ p ∈ s.pairs, p.q.pos = 0 → (σ p.q.site = 0 ↔ p.q.site = 0)) :
     resolveConflicts P C (segs.map (relabelSeg σ τ)) =
-      (resolveConflicts P C segs).map (List.map (relabelSeg σ τ)) := by
-  sorry
+      (resolveConflicts P C segs).map (List.map (relabelSeg σ τ)) :=
+  Mirror.resolveConflicts_relabel_of σ τ hσ P C segs hz
+
+/-- a change of `source` alone (no renumbering) commutes unconditionally -/
+theorem resolveConflicts_relabel_id (τ : Int → Int) (P : Params) (C : ChainCfg) (segs : List Seg) :
+    resolveConflicts P C (segs.map (relabelSeg id τ)) =
+      (resolveConflicts P C segs).map (List.map (relabelSeg id τ)) :=
+  resolveConflicts_relabel_of id τ (fun _ _ h => h) P C segs (fun _ _ _ _ _ => Iff.rfl)
 
 theorem getSegments_relabel (σ τ : Int → Int) (P : Params) (peak : Int) (xs : List APos) :
-    getSegments P peak (xs.map (relabelAPos σ τ)) = (getSegments P peak xs).map (relabelSeg σ τ) := by
-  sorry
+    getSegments P peak (xs.map (relabelAPos σ τ)) = (getSegments P peak xs).map (relabelSeg σ τ) :=
+  Mirror.getSegments_relabel' σ τ P peak xs
 
 /-- C11: the candidate built for the mirror image on the other strand from the same seed peaks is
     the mirror image of the candidate: same reference labels, query label k ↦ n+1−k, opposite
@@ -53,13 +76,43 @@ theorem alignerAlign_mirror (P : Params) (C : ChainCfg) (ref qry : OMap) (peaks 
     (ht : Trimmed qry)
     (hnt : ∀ peak ∈ peaks, NoTies P.md peak (refWindow P.md ref peak (peak + qry.length)) (qry.labels rev)) :
     alignerAlign P C ref qry.mirror peaks (!rev) it =
-      (alignerAlign P C ref qry peaks rev it).map (mirrorRow qry.positions.length) := by
-  sorry
+      (alignerAlign P C ref qry peaks rev it).map (mirrorRow qry.positions.length) :=
+  Mirror.alignerAlign_mirror' P ref qry rev C peaks it ht.1 ht.2.2.2 hnt
 
 theorem mirrorRow_confidence (n : Int) (r : Row) :
     (mirrorRow n r).confidence = r.confidence ∧ (mirrorRow n r).rev = !r.rev ∧
     (mirrorRow n r).pairs.map (fun p => (p.r, p.q.pos)) = r.pairs.map (fun p => (p.r, p.q.pos)) ∧
     (mirrorRow n r).pairs.map (fun p => p.q.site) = r.pairs.map (fun p => n + 1 - p.q.site) := by
-  sorry
+  refine ⟨rfl, rfl, ?_, ?_⟩
+  · simp only [mirrorRow, Row.pairs, List.flatMap_map, Mirror.segPairs_relabel, List.map_flatMap, List.map_map]
+    rfl
+  · simp only [mirrorRow, Row.pairs, List.flatMap_map, Mirror.segPairs_relabel, List.map_flatMap, List.map_map]
+    rfl
 
 end Coma.Proofs
+
+namespace Coma.Proofs.Mirror
+open Coma Coma.Spec
+
+def firstLen (e : Except Err (List Seg)) : Nat :=
+  match e with
+  | .ok (s :: _) => s.items.length
+  | _ => 0
+
+/-- kernel-checked refutation of `Coma.Proofs.resolveConflicts_relabel` as stated (σ k = k+1 moves the
+    query label `⟨0,0⟩`, which `endOverlapsWithStartOf` compares with `nullPr` when the right segment
+    is empty): the renumbered run reports no overlap and keeps all four items of the left segment, the
+    original run takes the `dropLeft` branch and keeps one -/
+theorem not_resolveConflicts_relabel :
+    ¬ ∀ (σ τ : Int → Int) (_ : ∀ a b, σ a = σ b → a = b) (P : Params) (C : ChainCfg) (segs : List Seg),
+      resolveConflicts P C (segs.map (relabelSeg σ τ)) =
+        (resolveConflicts P C segs).map (List.map (relabelSeg σ τ)) := by
+  intro h
+  have := h (fun k => k + 1) id (by intro a b h; omega)
+    { sp := 10, dp := 1, su := -6, md := 3, minScore := 1, bst := 0 } {}
+    [⟨0, [.pair ⟨⟨1, -10⟩, ⟨7, -10⟩, 0, 0⟩, .uref ⟨2, 1⟩, .uref ⟨3, 2⟩, .pair ⟨⟨4, 5⟩, ⟨0, 0⟩, 0, 0⟩]⟩, ⟨0, []⟩]
+  have := congrArg firstLen this
+  revert this
+  decide
+
+end Coma.Proofs.Mirror
